@@ -399,11 +399,18 @@ func RunMatryer(reg *Registration, cs *Case) (*Violation, RunStats) {
 			}
 			ops = append(ops, porcupine.Operation{ClientId: h.task + 1, Input: in, Call: int64(h.call), Output: pOut{joinList(h.list)}, Return: int64(h.rt)})
 		}
-		if len(ops) > 26 {
+		// cheap necessary conditions, whatever the size of the history: every observed record is
+		// the tuple of an issued call and appears once; a call that returned before a read was
+		// invoked (no reset in between or overlapping) is in that read
+		if v := r.cheapListChecks(name, hs, site); v != nil {
+			return v, st
+		}
+		if len(ops) > 12 {
 			st.Inconcl++
+			st.Tags = append(st.Tags, "probe:porcupine-skipped-large-partition")
 			continue
 		}
-		res := porcupine.CheckOperationsTimeout(listModel, ops, 10*time.Second)
+		res := porcupine.CheckOperationsTimeout(listModel, ops, 2*time.Second)
 		switch res {
 		case porcupine.Illegal:
 			return &Violation{"not-linearizable", site, fmt.Sprintf("variadic=%v", findMethod(r.methods, name).Variadic), "the recorded history of " + name + " is linearizable against a list model (no call lost, doubled or torn)", describeHist(hs)}, st
@@ -442,6 +449,47 @@ func RunMatryer(reg *Registration, cs *Case) (*Violation, RunStats) {
 		}
 	}
 	return nil, st
+}
+
+func (r *matryerRun) cheapListChecks(name string, hs []histOp, site string) *Violation {
+	issued := map[string]int{}
+	hasReset := false
+	for _, h := range hs {
+		if h.kind == "call" {
+			issued[h.tuple]++
+		}
+		if h.kind == "reset" {
+			hasReset = true
+		}
+	}
+	trig := fmt.Sprintf("variadic=%v", findMethod(r.methods, name).Variadic)
+	for _, h := range hs {
+		if h.kind != "calls" {
+			continue
+		}
+		seen := map[string]int{}
+		for _, t := range h.list {
+			seen[t]++
+			if seen[t] > issued[t] {
+				return &Violation{"record-not-of-one-call", site, trig, "each recorded call holds the arguments of exactly one actual call, none twice", fmt.Sprintf("a Calls() read returned %s %d times, %d such calls were issued", short(t, 200), seen[t], issued[t])}
+			}
+		}
+		if hasReset {
+			continue
+		}
+		done := map[string]int{}
+		for _, c := range hs {
+			if c.kind == "call" && c.recorded == "yes" && c.rt != 0 && c.rt < h.call {
+				done[c.tuple]++
+			}
+		}
+		for t, n := range done {
+			if seen[t] < n {
+				return &Violation{"call-lost", site, trig, "a call that returned before Calls() was invoked is in the returned list", fmt.Sprintf("%d calls %s had returned before the read invoked at event %d, which lists %d", n, short(t, 200), h.call, seen[t])}
+			}
+		}
+	}
+	return nil
 }
 
 func describeHist(hs []histOp) string {
